@@ -48,4 +48,9 @@ CASES = [
             - fac_low
             * tplstable_cor(r, self.len_low_rescaled, self.hurst, self.alpha)
         ) / (fac_up - fac_low)"""),
+    dict(name="gamma-recurrence-wrong-exponent", file="tools/special.py", expect="R03.7", old="        return (inc_gamma(s + 1, x) - x**s * np.exp(-x)) / s", new="        return (inc_gamma(s + 1, x) - x**(s + 1) * np.exp(-x)) / s"),
+    dict(name="gamma-recurrence-wrong-sign", file="tools/special.py", expect="R03.7", old="        return (inc_gamma_low(s + 1, x) + x**s * np.exp(-x)) / s", new="        return (inc_gamma_low(s + 1, x) - x**s * np.exp(-x)) / s"),
+    dict(name="gamma-recurrence-wrong-successor", file="tools/special.py", expect="R03.7", old="        return (inc_gamma(s + 1, x) - x**s * np.exp(-x)) / s", new="        return (inc_gamma(s + 2, x) - x**s * np.exp(-x)) / s"),
+    dict(name="twin-gamma-recurrence-loop", kind="twin", file="tools/special.py", old="        return (inc_gamma(s + 1, x) - x**s * np.exp(-x)) / s",
+         new="        steps = int(np.ceil(-s))\n        res = sps.gamma(s + steps) * sps.gammaincc(s + steps, x)\n        for t in s + np.arange(steps)[::-1]:\n            res = (res - x**t * np.exp(-x)) / t\n        return res"),
 ]
